@@ -578,7 +578,7 @@ def clash_partial(rng, k=3):
 
 
 # ----------------------------------------------------------------------------- files for the command-line tool
-def write_cif(st, path, metadata=True):
+def write_cif(st, path, metadata=True, short_occupancy=False):
     """minimal mmCIF the v1 reader understands (coordinates with 3 decimals, occupancy with 2)"""
     lines = ["data_synthetic", "#"]
     if metadata:
@@ -598,7 +598,8 @@ def write_cif(st, path, metadata=True):
             chain = r.chain if (r.chain and r.chain.strip() and " " not in r.chain) else "A"
             lines.append(" ".join([
                 "ATOM", str(k), a.name[:1], nm, ".", comp, chain, "1", str(ri + 1), r.icode or "?",
-                "%.3f" % a.x, "%.3f" % a.y, "%.3f" % a.z, "." if a.occupancy is None else "%.2f" % a.occupancy,
+                "%.3f" % a.x, "%.3f" % a.y, "%.3f" % a.z,
+                "." if a.occupancy is None else (("%.2f" % a.occupancy)[1:] if short_occupancy and 0 < a.occupancy < 1 else "%.2f" % a.occupancy),
                 "10.00", str(r.number), comp, chain, nm, str(r.model)]))
     lines.append("#")
     with open(path, "w") as f:
